@@ -46,13 +46,31 @@ pub fn dir_line(path: &str) -> String {
 }
 
 /// sequential baseline, then `n` threads each parsing all records in its own order; every result is compared
+/// the canonical line plus, for an error, the Debug rendering of the whole error value (every field the caller
+/// can see: expected kinds in their order, actual token, path, location)
+fn observe(r: &str) -> String {
+    match gosyn::parse_source(r) {
+        Ok(f) => format!("OK {} | {}", walk::file(&f), walk::comments(&f.comments)),
+        Err(e) => format!("{}\u{1}{}", walk::error_line(&e), match e.downcast_ref::<gosyn::Error>() {
+            Some(g) => format!("{:?}", g),
+            None => format!("untyped: {}", e),
+        }),
+    }
+}
+
+fn canonical(observed: &str) -> &str {
+    observed.split('\u{1}').next().unwrap_or(observed)
+}
+
 pub fn threads<W: Write>(n: usize, records: Vec<String>, out: &mut W) {
-    let baseline: Vec<String> = records.iter().map(|r| guarded(|| walk::parse_line("parse", r))).collect();
+    let baseline: Vec<String> = records.iter().map(|r| guarded(|| observe(r))).collect();
     // a second sequential pass on a fresh set of parsers: repeated parses give the same result
     let mut repeat_diff = 0usize;
+    let mut repeat_first: Option<usize> = None;
     for (i, r) in records.iter().enumerate() {
-        if guarded(|| walk::parse_line("parse", r)) != baseline[i] {
+        if guarded(|| observe(r)) != baseline[i] {
             repeat_diff += 1;
+            repeat_first.get_or_insert(i);
         }
     }
     let records = std::sync::Arc::new(records);
@@ -71,7 +89,7 @@ pub fn threads<W: Write>(n: usize, records: Vec<String>, out: &mut W) {
             }
             for k in 0..m {
                 let i = (k * stride + t * 7919) % m;
-                let line = guarded(|| walk::parse_line("parse", &records[i]));
+                let line = guarded(|| observe(&records[i]));
                 if line != baseline[i] {
                     diffs.push(i);
                 }
@@ -89,8 +107,9 @@ pub fn threads<W: Write>(n: usize, records: Vec<String>, out: &mut W) {
         }
     }
     for l in baseline.iter() {
-        writeln!(out, "{}", l).unwrap();
+        writeln!(out, "{}", canonical(l)).unwrap();
     }
+    let first = first.or(repeat_first);
     writeln!(out, "THREADS n={} records={} executions={} differing={} repeat_differing={} first={}",
              n, records.len(), n * records.len(), total, repeat_diff,
              first.map(|i| i.to_string()).unwrap_or_else(|| "-".into())).unwrap();
